@@ -447,7 +447,7 @@ pub fn world_c18(tier: Tier, world_no: u64, mut t: Tape) -> WorldReport {
     rep.sample = Some(json!({
         "engine": "entropy-sim",
         "program": name,
-        "source": if source.len() < 3000 { source.clone() } else { format!("{}…", &source[..3000]) },
+        "source": crate::tape::clip(&source, 3000),
         "hash_seeds": seeds,
         "in_process_worlds": nseeds,
         "same_thread_repetitions": 20,
